@@ -165,14 +165,14 @@ def oracleC07 (s : SyncCase) : Option String :=
         | .ok (some la) =>
           if v.after.contains c then
             match v.desiredOf c with
-            | some d => check (la.eqv d) s!"{r.name} is on the latest revision but was written with another desired state"
+            | some d => check (la.eqv (nullifyLastApplied d)) s!"{r.name} is on the latest revision but was written with another desired state"
             | none => none
           else
             let claimers := v.oldRevs.filter (fun rev => (revNames s.cfg rev).contains c)
             if claimers.isEmpty then none else
             let wants := claimers.filterMap (fun rev => (hookOfRev s v rev).bind (fun h =>
               ((s.respChildren h).map (desiredAsCompared s v.mainParent)).find? (fun d => cnameOf d == c)))
-            check (wants.isEmpty || wants.any (fun d => la.eqv d))
+            check (wants.isEmpty || wants.any (fun d => la.eqv (nullifyLastApplied d)))
               s!"{r.name} is still assigned to an old revision but was written with a desired state that is not that revision's"
         | _ => none)
 
